@@ -81,6 +81,10 @@ pub fn overwrite(dir: &Path, p: &Project) {
         if let Some(parent) = path.parent() {
             std::fs::create_dir_all(parent).unwrap_or_else(|e| crate::report::machinery(&format!("mkdir {parent:?}: {e}")));
         }
+        // an edit writes the files it changes and leaves the others (and their modification times) alone
+        if std::fs::read(&path).ok().as_deref() == Some(text.as_bytes()) {
+            continue;
+        }
         std::fs::write(&path, text).unwrap_or_else(|e| crate::report::machinery(&format!("write {path:?}: {e}")));
     }
 }
